@@ -8,7 +8,7 @@ package recovery
 //@   property C10
 //@   safety C10
 //@   requires decryptHeader != nil && verifyHeader != nil
-//@   modifies *, indexWrites, ghosts(C04), ghosts(C08), ghosts(C09)
+//@   modifies *, indexWrites, ghosts(C04), ghosts(C08), ghosts(C09), ghosts(C14)
 //@   ensures [drive-unchanged] driveHeld == old(driveHeld)
 //@   property C04
 //@   requires [grid] reader.DriveIsRegular ==> pipes.RecordSize >= 1 && record >= 0 && block >= 0 && block < pipes.RecordSize
@@ -24,7 +24,7 @@ package recovery
 //@ func Query
 //@   property C10
 //@   safety C10
-//@   modifies *, ghosts(C04), ghosts(C08), ghosts(C09)
+//@   modifies *, ghosts(C04), ghosts(C08), ghosts(C09), ghosts(C14)
 //@   ensures [drive-unchanged] driveHeld == old(driveHeld)
 //@   property C04
 //@   requires [grid] reader.DriveIsRegular ==> pipes.RecordSize >= 1 && record >= 0 && block >= 0 && block < pipes.RecordSize
@@ -37,7 +37,7 @@ package recovery
 //@ func Fetch
 //@   property C10
 //@   safety C10
-//@   modifies *, ghosts(C04), ghosts(C08), ghosts(C09)
+//@   modifies *, ghosts(C04), ghosts(C08), ghosts(C09), ghosts(C14)
 //@   ensures [drive-unchanged] driveHeld == old(driveHeld)
 //@   property C04
 //@   at call Seek#1 assert [seek-target] arg_offset == 512*(pipes.RecordSize*record+block) && arg_whence == 0
